@@ -830,6 +830,130 @@ def stub_variants(prog):
     return out
 
 
+# ---------------------------------------------------------------------------------------- control skeletons
+def _bodies(n, in_loop, memo):
+    """All statement lists with exactly n nodes (kind-correct; code after a terminator is allowed:
+    those programs are rejected and exercise the 'code after' rules)."""
+    key = (n, in_loop)
+    if key in memo:
+        return memo[key]
+    out = []
+    if n == 0:
+        out = [[]]
+    else:
+        for k in range(1, n + 1):
+            for first in _stmts(k, in_loop, memo):
+                for rest in _bodies(n - k, in_loop, memo):
+                    out.append([first] + rest)
+    memo[key] = out
+    return out
+
+
+def _stmts(n, in_loop, memo):
+    """All statements with exactly n nodes."""
+    key = ("s", n, in_loop)
+    if key in memo:
+        return memo[key]
+    out = []
+    if n == 1:
+        out += [("call",), ("ret",)]
+        if in_loop:
+            out += [("break",), ("continue",)]
+    if n >= 1:
+        # loop {body}: 1 + |body|
+        for b in _bodies(n - 1, True, memo):
+            out.append(("loop", b))
+        # if {body}: 1 + |body|;  if {a} else {b}: 1 + |a| + 1 + |b|;  if {a} elif {b}: same count
+        for b in _bodies(n - 1, in_loop, memo):
+            out.append(("if", b, None, None))
+        for na in range(0, n - 1):
+            nb = n - 2 - na
+            if nb < 0:
+                continue
+            for a in _bodies(na, in_loop, memo):
+                for b in _bodies(nb, in_loop, memo):
+                    out.append(("if", a, b, None))
+                    out.append(("if", a, None, b))
+    memo[key] = out
+    return out
+
+
+def _skel_sexp(g, body, in_loop, flav):
+    """flav: body flavour for if-bodies: 'if' or 'loop' (loop-flavoured only inside loops)."""
+    i32 = ["prim", "i32"]
+    lit = lambda: ["expr", ["prim", ["pv", "i32", 1]]]
+    out = []
+    for st in body:
+        k = st[0]
+        if k == "call":
+            out.append(["call", g.ident("g")])
+        elif k == "ret":
+            out.append(["ret", lit()])
+        elif k in ("break", "continue"):
+            out.append([k])
+        elif k == "loop":
+            out.append(["loop"] + _skel_sexp(g, st[1], True, "loop"))
+        else:
+            def wrap(b):
+                # break/continue may only sit in loop-flavoured bodies
+                if in_loop:
+                    return ["loopbody"] + _skel_sexp(g, b, True, "loop")
+                return ["ifbody"] + _skel_sexp(g, b, False, "if")
+            els = ["else", wrap(st[2])] if st[2] is not None else ["noelse"]
+            elif_ = ["noelif"]
+            if st[3] is not None:
+                elif_ = ["elif", ["ifs", ["single", ["expr", ["name", g.ident("c")]]], wrap(st[3]), ["noelse"], ["noelif"]]]
+            out.append(["if", ["ifs", ["single", ["expr", ["name", g.ident("c")]]], wrap(st[1]), els, elif_]])
+    return out
+
+
+def gen_skeletons(max_nodes):
+    """Every control skeleton with at most max_nodes nodes as the body of f (followed by a final
+    return), next to a callee g."""
+    memo = {}
+    out = []
+    i32 = ["prim", "i32"]
+    for n in range(0, max_nodes + 1):
+        for body in _bodies(n, False, memo):
+            g = Gen(0)
+            stmts = _skel_sexp(g, body, False, "if")
+            callee = ["fn", g.ident("g"), ["params"], i32, ["body", ["ret", ["expr", ["prim", ["pv", "i32", 1]]]]]]
+            f = ["fn", g.ident("f"), ["params", [g.ident("c"), ["prim", "bool"]]], i32,
+                 ["body"] + stmts + [["ret", ["expr", ["prim", ["pv", "i32", 2]]]]]]
+            out.append((["program", callee, f], {"stream": "skeleton", "nodes": n, "exhaustive": max_nodes}))
+    return out
+
+
+# ---------------------------------------------------------------------------------------- name collisions (C12)
+COLLIDE_POOL = ["x", "x.0", "x.1", "x.2", ".", "", "x.007", "x.+1"]
+
+
+def gen_name_triples():
+    """All programs with three declarations drawn from an 8-name pool, in four placements."""
+    import itertools
+    out = []
+    i32 = ["prim", "i32"]
+    lit = lambda: ["expr", ["prim", ["pv", "i32", 1]]]
+    for a, b, c in itertools.product(COLLIDE_POOL, repeat=3):
+        for shape in range(4):
+            g = Gen(0)
+            let = lambda n: ["let", g.ident(n), 0, ["noty"], lit()]
+            if shape == 0:
+                body, params = [let(a), let(b), let(c)], []
+            elif shape == 1:
+                body, params = [let(a), ["loop", let(b), ["break"]], let(c)], []
+            elif shape == 2:
+                body = [let(a), ["if", ["ifs", ["single", lit()], ["ifbody", let(b)], ["else", ["ifbody", let(c)]], ["noelif"]]]]
+                params = []
+            else:
+                if a == b:
+                    continue
+                body, params = [let(c)], [[g.ident(a), i32], [g.ident(b), i32]]
+            f = ["fn", g.ident("f"), ["params"] + params, i32, ["body"] + body + [["ret", lit()]]]
+            out.append((["program", f], {"stream": "names", "exhaustive": True}))
+    return out
+
+
 def generate(seed, n_wf, n_fault, n_free, n_known=0):
     """Deterministic batch: list of (program, meta)."""
     out = []
